@@ -9,7 +9,8 @@
 From Coq Require Import List NArith ZArith Bool Permutation Lia.
 From Coq.Strings Require Import Byte.
 Require Import GV.Base.Res GV.Base.Byt GV.Base.Ints GV.Model.Leb GV.Model.Prim.
-Require Import GV.Spec.UnitWrSpec GV.Model.UnitWr GV.Proofs.UnitWrProofs.
+Require Import GV.Spec.UnitWrSpec GV.Model.UnitWr GV.Proofs.UnitWrProofs GV.Proofs.UnitRoundtrip.
+Require GV.Proofs.AttrProofs GV.Proofs.DieRdProofs.
 Import ListNotations.
 Local Open Scope N_scope.
 
@@ -225,6 +226,135 @@ Example unit_roundtrip_ex :
   | _ => False
   end.
 Proof. vm_compute. split; reflexivity. Qed.
+
+(* ---------------------------------------------------------------- composed with the reader models (C02 / C03) *)
+
+(* FS = Spec/FormSpec.v, AT = Model/Attr.v (gimli's attribute reader), FO = Spec/Forest.v,
+   AR = Model/AbbrevRd.v, DR = Model/DieRd.v (gimli's abbreviation and raw entry readers).
+   `renc cx` is the unit's encoding in the reader's vocabulary; `av_fd cx f v` the DWARF form and data the
+   writer emits for v (Proofs/UnitRoundtrip.v); `attr_rd_ok` / `die_rd_ok`: names and tags are non-zero u16,
+   the name is not DW_AT_sibling (`set` refuses it), payloads are within their Rust types. *)
+
+(* (a) for EVERY write::AttributeValue variant and encoding: Attr.parse_attribute under the specification the
+   writer stores in the abbreviation (name, form chosen by `form`, implicit constant) reads the written bytes
+   (unit references patched) back as exactly the value DWARF assigns to the emitted form and data, consumes
+   exactly those bytes, and the value means what was set (`payload_of`: the number / bytes / flag; which
+   constructor carries it is decided by form and name — e.g. Data4 under a loclistptr-class name is handed
+   out as a section offset by gimli's reader, C03 `normalise_payload`). *)
+Theorem attr_read_by_reader : forall (dbg dbg' : bool) (cx : wcx) (f : eid -> list byte) (name : N) (v : aval)
+    (ops : list wop) (rest : list byte),
+  av_write dbg cx v = Ok ops -> av_decodable v -> av_typed cx v -> av_ranges cx v ->
+  (forall id, UnitWr.blen (f id) = wsz (wc_enc cx)) -> AttrProofs.addr_size_ok (renc cx) ->
+  exists val,
+    AT.parse_attribute dbg' (renc cx) (AT.mkSpec name (fst (av_form (wc_enc cx) v)) (ic_of (snd (av_form (wc_enc cx) v))))
+                       (ops_resolved f ops ++ rest) = Ok (val, rest) /\
+    FS.form_value (renc cx) name (ic_of (snd (av_form (wc_enc cx) v))) (fst (av_fd cx f v)) (snd (av_fd cx f v)) = Some val /\
+    FS.payload_of val = av_payload cx f v.
+Proof. exact attr_read_by_reader_lemma. Qed.
+
+Example attr_read_by_reader_ex :
+  let cx := mkWcx (mkEnc 5 false 8) false 0 0 [] [] None [] [7] [] [] 5 in
+  av_write true cx (AvStringRef 0) = Ok [WB [x07; x00; x00; x00]] /\
+  av_typed cx (AvStringRef 0) /\ av_ranges cx (AvStringRef 0) /\ AttrProofs.addr_size_ok (renc cx) /\
+  AT.parse_attribute true (renc cx) (AT.mkSpec 3 14 0) [x07; x00; x00; x00; xaa] = Ok (FS.VDebugStrRef 7, [xaa]) /\
+  av_write true cx (AvImplicitConst (-5)) = Ok [] /\
+  AT.parse_attribute true (renc cx) (AT.mkSpec 58 33 (-5)) [xaa] = Ok (FS.VSdata (-5), [xaa]).
+Proof.
+  cbv zeta. split; [reflexivity|]. split; [exists 7; split; reflexivity|].
+  split; [vm_compute; reflexivity|]. repeat split; reflexivity.
+Qed.
+
+(* (b) AbbrevRd.parse_abbrevs of the written abbreviation table returns a table whose `get code` is, for every
+   code, the declaration written under it (tag, children flag, attribute specifications) — and nothing else *)
+Theorem abbrevs_read_by_reader : forall (dbg : bool) (tab : list abbrev) (bytes rest : list byte),
+  abbrevs_write tab = Ok bytes -> Forall abbrev_wf tab -> N.of_nat (length tab) < two64 ->
+  exists t, AR.parse_abbrevs dbg (bytes ++ rest) = Ok (t, rest) /\
+            (forall code a, abbrev_lookup tab code = Some a -> AR.tbl_get t code = Some (rabbrev code a)) /\
+            (forall code d, AR.tbl_get t code = Some d ->
+               exists a, abbrev_lookup tab code = Some a /\ d = rabbrev code a).
+Proof. exact abbrevs_read_by_reader_lemma. Qed.
+
+Example abbrevs_read_by_reader_ex :
+  let tab := [mkAbbrev 17 true [mkAspec 3 8 0]; mkAbbrev 36 false [mkAspec 58 33 (-5)]] in
+  abbrevs_write tab = Ok [x01; x11; x01; x03; x08; x00; x00; x02; x24; x00; x3a; x21; x7b; x00; x00; x00] /\
+  Forall abbrev_wf tab.
+Proof.
+  cbv zeta. split; [vm_compute; reflexivity|].
+  repeat constructor; cbn; try lia; try discriminate; try reflexivity; intros Q; exfalso; apply Q; reflexivity.
+Qed.
+
+(* (c) the unit: the entries Unit::write emits (after the reference patches) ARE Forest.enc_forest of the
+   written tree (`T`, Proofs/UnitRoundtrip.v) under the code assignment of the unit's abbreviation table, so —
+   by C02's raw_is_preorder — DieRd's raw entry reader, with the table AbbrevRd parses from the written
+   abbreviations, reports exactly the entries of that tree in preorder (null entries closing child lists in
+   between): unit offsets = the offsets calculate_offsets stored minus the unit's offset, depths, tags, children
+   flags, attribute specifications and values (`FO.preorder` of `T`: root_die / item_val; a DW_AT_sibling reads
+   back as the unit offset just behind the entry's subtree). References then resolve by refs_resolve. *)
+Theorem unit_read_by_reader : forall (dbg dbg' : bool) (cx : wcx) (root : die) (st0 st : cst) (ops : list wop)
+    (f : eid -> list byte) (abytes rest : list byte) (types : bool) (ruoff aoff : N),
+  let e := wc_enc cx in
+  let h := FO.mkUH (e_ver e) (e_fmt64 e) (e_asz e) FO.UCompile aoff in
+  let codes := codes_of_tab (cs_abbrevs st) in
+  let body := ops_resolved f ops in
+  calc dbg e (wc_lpv cx) root st0 = Ok st -> cs_abbrevs st0 = [] ->
+  wc_codes cx = cs_codes st ->
+  write_die dbg cx root (cs_off st0) = Ok ops ->
+  abbrevs_write (cs_abbrevs st) = Ok abytes ->
+  NoDup (die_ids root) -> die_rd_ok cx root ->
+  (forall id, UnitWr.blen (f id) = wsz e) ->
+  2 <= e_ver e <= 5 -> AttrProofs.addr_size_ok (renc cx) ->
+  wc_unit_off cx <= cs_off st0 -> cs_off st0 - wc_unit_off cx = FO.header_len h ->
+  cs_off st0 + ops_len ops < two63 ->
+  exists tbl,
+    AR.parse_abbrevs dbg' (abytes ++ rest) = Ok (tbl, rest) /\
+    body = FO.enc_forest codes (wc_be cx) (FO.header_len h) [T cx f root] 0 /\
+    DR.read_all_raw dbg' (DieRdProofs.parsed_header (wc_be cx) types ruoff h body) tbl None =
+      Ok (FO.raw_seq codes (FO.header_len h) [T cx f root] 0, None) /\
+    filter DieRdProofs.not_null (FO.raw_seq codes (FO.header_len h) [T cx f root] 0) =
+      FO.preorder codes (FO.header_len h) 0 [T cx f root] /\
+    map FO.d_offset (FO.preorder codes (FO.header_len h) 0 [T cx f root]) =
+      map (fun ip => snd ip - wc_unit_off cx) (ops_marks (cs_off st0) ops) /\
+    map fst (ops_marks (cs_off st0) ops) = die_ids root /\
+    (forall i p, In (i, p) (ops_marks (cs_off st0) ops) -> nth_error (cs_entries st) i = Some p).
+Proof. exact unit_read_by_reader_lemma. Qed.
+
+(* the example tree meets the hypotheses of (c); what the raw reader reports for it *)
+Definition ex_cx : wcx := mkWcx ex_enc false 0 0 (cs_entries ex_st) (cs_codes ex_st) None [] [] [] [] 4.
+Definition ex_f : eid -> list byte :=
+  fun id => match ref_value true false 0 0 (cs_entries ex_st) 4 id with Some b => b | None => zeros 4 end.
+
+Example unit_read_by_reader_ex_hyps :
+  die_rd_ok ex_cx ex_root /\ AttrProofs.addr_size_ok (renc ex_cx) /\
+  FO.header_len (FO.mkUH 4 false 8 FO.UCompile 0) = 11 /\ (forall id, UnitWr.blen (ex_f id) = 4).
+Proof.
+  assert (A : forall n v, 0 < n < 65536 -> n <> 1 -> av_decodable v -> av_typed ex_cx v -> av_ranges ex_cx v ->
+              attr_rd_ok ex_cx (n, v)) by (intros; unfold attr_rd_ok, two16; cbn [fst snd]; tauto).
+  split; [|split; [reflexivity|split; [reflexivity|]]].
+  - unfold ex_root. rewrite die_rd_ok_unfold. unfold two16. split; [lia|]. split.
+    + constructor; [|constructor; [|constructor]].
+      * apply A; [lia|discriminate|reflexivity| |exact I]. cbn [av_typed]. unfold UnitWr.blen. cbn [length]. lia.
+      * apply A; [lia|discriminate|exact I|exact I|exact I].
+    + cbn [dies_rd_ok]. rewrite !die_rd_ok_unfold. unfold two16. cbn [dies_rd_ok].
+      repeat split; try lia; try (constructor; [|constructor]; apply A; try lia; try discriminate; try exact I; cbn [av_typed]; lia).
+  - intros id. unfold ex_f. destruct (ref_value true false 0 0 (cs_entries ex_st) 4 id) as [b|] eqn:E; [|reflexivity].
+    unfold ref_value in E. destruct (unit_offset true 0 0 (cs_entries ex_st) id) as [[v|]| | |]; try discriminate.
+    destruct (write_udata false v 4) as [b'| | |] eqn:W; try discriminate. injection E as <-.
+    eapply write_udata_len; eassumption.
+Qed.
+
+Example unit_read_by_reader_ex :
+  match calc true ex_enc 4 ex_root ex_st0 with
+  | Ok st =>
+      cs_entries st = cs_entries ex_st /\ cs_codes st = cs_codes ex_st /\
+      map (fun d => (FO.d_offset d, FO.d_depth d, FO.d_tag d, FO.d_children d, map snd (FO.d_attrs d)))
+          (FO.preorder (codes_of_tab (cs_abbrevs st)) 11 0 [T ex_cx ex_f ex_root]) =
+        [(11, 0%Z, 17, true, [FS.VUnitRef 33; FS.VString [x61]; FS.VUnitRef 25]);
+         (22, 1%Z, 36, false, [FS.VUdata 300]);
+         (25, 1%Z, 46, false, [FS.VUnitRef 22]);
+         (30, 1%Z, 36, false, [FS.VUdata 7])]
+  | _ => False
+  end.
+Proof. vm_compute. repeat split; reflexivity. Qed.
 
 (* ---------------------------------------------------------------- (3) abbreviation de-duplication *)
 
